@@ -488,6 +488,7 @@ static bool close_enough(const Program& P, const Call& c, const uint8_t* pa, con
       }
       long double lg = log2l((long double)n) + 1;
       long double tol = 2 * 8 * lg * 1.1102230246251565e-16L * sqrtl(n2) * 1.01L;
+      tol += sqrtl((long double)n) * 8 * lg * 4.9406564584124654e-324L;  // gradual underflow: half a unit of 2^-1074 per operation
       if (sqrtl(d2) <= tol) return true;
       if (why) *why = "2-norm of the difference exceeds 2*8*log2(2m)*eps*||x||";
       return false;
@@ -1073,7 +1074,7 @@ int main(int argc, char** argv) {
   uint64_t seed = 1;
   long first = 0, count = 1, one = -1;
   int variant = 0;
-  bool thorough = false, serial_only = false, same_mask = false, calm = false;
+  bool thorough = false, serial_only = false, same_mask = false, same_mask_b = false, calm = false;
   for (int i = 1; i < argc; ++i) {
     std::string a = argv[i];
     auto nx = [&]() -> const char* { return i + 1 < argc ? argv[++i] : ""; };
@@ -1089,6 +1090,7 @@ int main(int argc, char** argv) {
     else if (a == "--verbose") g_verbose = true;
     else if (a == "--serial-only") serial_only = true;
     else if (a == "--same-mask") same_mask = true;
+    else if (a == "--same-mask-b") same_mask_b = true;
     else if (a == "--calm") calm = true;
     else {
       usage();
@@ -1106,6 +1108,7 @@ int main(int argc, char** argv) {
     }
     if (serial_only) s.serial_only = true;
     if (same_mask) s.maskB = s.maskA;
+    if (same_mask_b) s.maskA = s.maskB;
     if (calm) s.force_calm = true;
     return child_run(s, -1, 1, dump.empty() ? nullptr : dump.c_str());
   }
